@@ -375,6 +375,15 @@ func TestVerifCircuit(t *testing.T) {
 		return
 	}
 	only := vEnvInt("VERIF_C07_ONLY", -1)
+	// Scripted witness histories (Circuit/Examples.v, RestartProofs.v): replayed on
+	// the real circuitMap in every run; case ids 100000+.
+	for wi, w := range vC07Witnesses() {
+		ci := 100000 + wi
+		if only >= 0 && int64(ci) != only {
+			continue
+		}
+		vC07Scripted(t, out, w, ci)
+	}
 	for ci := 0; ci < ncases; ci++ {
 		if only >= 0 && int64(ci) != only {
 			continue
@@ -902,4 +911,193 @@ func vC07Exhaustive(t *testing.T, out *vWriter, depth int) {
 	}
 	_ = sort.Ints
 	_ = filepath.Join
+}
+
+// ---- scripted witness histories -------------------------------------------------
+
+type vC07Op struct {
+	kind string // "call", "disk", "mem", "restart"
+	th   int
+	call string
+	args any
+	in   []any
+	ok   bool
+	rc   *vC07Restart
+}
+
+type vC07Script struct {
+	name string
+	ops  []vC07Op
+}
+
+func vC07CallCommit(th int, specs ...[3]uint64) vC07Op {
+	in := [][]uint64{}
+	for _, sp := range specs {
+		in = append(in, []uint64{sp[0], sp[1], sp[2]})
+	}
+	return vC07Op{kind: "call", th: th, call: "commit", args: [][3]uint64(specs), in: []any{"commit", in}}
+}
+
+func vC07CallOpen(th int, ks ...[4]uint64) vC07Op {
+	var kss []Keystone
+	in := [][]uint64{}
+	for _, k := range ks {
+		kss = append(kss, Keystone{InKey: vC07Key(k[0], k[1]), OutKey: vC07Key(k[2], k[3])})
+		in = append(in, []uint64{k[0], k[1], k[2], k[3]})
+	}
+	return vC07Op{kind: "call", th: th, call: "open", args: kss, in: []any{"open", in}}
+}
+
+func vC07CallTrim(th int, c, st uint64) vC07Op {
+	return vC07Op{kind: "call", th: th, call: "trim", args: [2]uint64{c, st}, in: []any{"trim", c, st}}
+}
+
+func vC07CallClose(th int, c, h uint64) vC07Op {
+	return vC07Op{kind: "call", th: th, call: "close", args: vC07Key(c, h), in: []any{"close", c, h}}
+}
+
+func vC07CallFail(th int, c, h uint64) vC07Op {
+	return vC07Op{kind: "call", th: th, call: "fail", args: vC07Key(c, h), in: []any{"fail", c, h}}
+}
+
+func vC07CallDelete(th int, ks ...[2]uint64) vC07Op {
+	var keys []CircuitKey
+	in := [][]uint64{}
+	for _, k := range ks {
+		keys = append(keys, vC07Key(k[0], k[1]))
+		in = append(in, []uint64{k[0], k[1]})
+	}
+	return vC07Op{kind: "call", th: th, call: "delete", args: keys, in: []any{"delete", in}}
+}
+
+func vC07Disk(th int, ok bool) vC07Op { return vC07Op{kind: "disk", th: th, ok: ok} }
+func vC07Mem(th int) vC07Op           { return vC07Op{kind: "mem", th: th} }
+func vC07RestartOp(rc *vC07Restart) vC07Op {
+	return vC07Op{kind: "restart", rc: rc}
+}
+
+// full = call; disk ok; mem
+func vC07Full(op vC07Op, ok bool) []vC07Op {
+	return []vC07Op{op, vC07Disk(op.th, ok), vC07Mem(op.th)}
+}
+
+func vC07Witnesses() []vC07Script {
+	cat := func(xs ...[]vC07Op) []vC07Op {
+		var r []vC07Op
+		for _, x := range xs {
+			r = append(r, x...)
+		}
+		return r
+	}
+	one := func(op vC07Op) []vC07Op { return []vC07Op{op} }
+	return []vC07Script{
+		// RestartProofs.gap_history / gap_rc (C07_restart_gap_refuted)
+		{"gap", cat(
+			vC07Full(vC07CallCommit(0, [3]uint64{1, 0, 5}, [3]uint64{1, 1, 6}), true),
+			vC07Full(vC07CallOpen(0, [4]uint64{1, 0, 2, 0}, [4]uint64{1, 1, 2, 2}), true),
+			one(vC07RestartOp(&vC07Restart{active: []vC07Active{{scid: 2, ridx: 0}}})),
+		)},
+		// Examples.failed_trim_history / failed_trim_rc
+		{"failed_trim", cat(
+			vC07Full(vC07CallCommit(0, [3]uint64{1, 0, 5}, [3]uint64{1, 1, 6}, [3]uint64{1, 2, 7}), true),
+			vC07Full(vC07CallOpen(0, [4]uint64{1, 0, 2, 0}, [4]uint64{1, 1, 2, 1}, [4]uint64{1, 2, 2, 2}), true),
+			vC07Full(vC07CallTrim(0, 2, 0), false),
+			one(vC07CallTrim(0, 2, 0)),
+			one(vC07CallFail(0, 1, 0)),
+			vC07Full(vC07CallDelete(0, [2]uint64{1, 0}), true),
+			vC07Full(vC07CallOpen(0, [4]uint64{1, 1, 2, 0}, [4]uint64{1, 2, 2, 1}), true),
+			one(vC07RestartOp(&vC07Restart{active: []vC07Active{{scid: 2, ridx: 2}}})),
+			one(vC07CallCommit(0, [3]uint64{1, 2, 7}, [3]uint64{1, 1, 6})),
+			one(vC07CallClose(0, 2, 1)),
+		)},
+		// Examples.delete_races_commit
+		{"delete_races_commit", []vC07Op{
+			vC07CallCommit(0, [3]uint64{1, 0, 5}),
+			vC07CallDelete(1, [2]uint64{1, 0}),
+			vC07CallCommit(2, [3]uint64{1, 0, 6}),
+			vC07Disk(0, true), vC07Mem(0), vC07Disk(2, true), vC07Mem(2),
+			vC07Disk(1, true), vC07Mem(1),
+		}},
+		// Examples.dup_out_in_batch
+		{"dup_out_in_batch", cat(
+			vC07Full(vC07CallCommit(0, [3]uint64{1, 0, 5}, [3]uint64{1, 1, 6}), true),
+			vC07Full(vC07CallOpen(0, [4]uint64{1, 0, 2, 0}, [4]uint64{1, 1, 2, 0}), true),
+			vC07Full(vC07CallDelete(0, [2]uint64{1, 0}), true),
+			one(vC07CallClose(0, 2, 0)),
+		)},
+		// Examples.double_keystone_dangles
+		{"double_keystone", cat(
+			vC07Full(vC07CallCommit(0, [3]uint64{1, 0, 5}), true),
+			vC07Full(vC07CallOpen(0, [4]uint64{1, 0, 2, 0}), true),
+			vC07Full(vC07CallOpen(0, [4]uint64{1, 0, 2, 1}), true),
+			vC07Full(vC07CallDelete(0, [2]uint64{1, 0}), true),
+		)},
+		// Examples.trim_failure_not_rolled_back (C07_rollback, Trim clause)
+		{"trim_no_rollback", cat(
+			vC07Full(vC07CallCommit(0, [3]uint64{1, 0, 5}), true),
+			vC07Full(vC07CallOpen(0, [4]uint64{1, 0, 2, 0}), true),
+			vC07Full(vC07CallTrim(0, 2, 0), false),
+		)},
+		// C07_rollback, DeleteCircuits clause (Examples.rollback_delete_ex)
+		{"delete_rollback", cat(
+			vC07Full(vC07CallCommit(0, [3]uint64{1, 0, 5}, [3]uint64{1, 1, 6}), true),
+			vC07Full(vC07CallOpen(0, [4]uint64{1, 0, 2, 0}), true),
+			one(vC07CallClose(0, 2, 0)),
+			vC07Full(vC07CallDelete(1, [2]uint64{1, 0}, [2]uint64{1, 1}), false),
+			one(vC07CallClose(0, 2, 0)),
+		)},
+	}
+}
+
+func vC07Scripted(t *testing.T, out *vWriter, w vC07Script, ci int) {
+	s := vC07NewSys(t, false)
+	defer func() { s.raw.Close() }()
+	s.newMap(&vC07Restart{})
+	ths := make([]*vC07Thread, 3)
+	for i := range ths {
+		ths[i] = &vC07Thread{id: i, yield: make(chan string), resume: make(chan bool), state: "idle"}
+	}
+	var steps []vC07Step
+	rec := func(in []any, o []any) {
+		steps = append(steps, vC07Step{In: in, Out: o, Snap: s.snap()})
+	}
+	for _, op := range w.ops {
+		switch op.kind {
+		case "call":
+			th := ths[op.th]
+			if th.state != "idle" {
+				t.Fatalf("witness %s: thread %d busy", w.name, op.th)
+			}
+			th.what = op.call
+			o := s.start(th, s.callFn(op.call, op.args))
+			rec(append([]any{"call", op.th}, op.in...), o)
+		case "disk":
+			th := ths[op.th]
+			if th.state != "pre" {
+				// the model answers ODisabled; the scripts never do this
+				t.Fatalf("witness %s: thread %d has no transaction pending", w.name, op.th)
+			}
+			o := s.stepDisk(th, op.ok)
+			rec([]any{"disk", op.th, op.ok}, o)
+		case "mem":
+			th := ths[op.th]
+			o := s.stepMem(th)
+			rec([]any{"mem", op.th}, o)
+		case "restart":
+			s.doRestart(ths, op.rc, true)
+			rec([]any{"restart", vC07RestartJ(op.rc)}, []any{"restarted"})
+		}
+	}
+	for _, th := range ths {
+		if th.state == "pre" {
+			o := s.stepDisk(th, true)
+			rec([]any{"disk", th.id, true}, o)
+		}
+		if th.state == "post" {
+			o := s.stepMem(th)
+			rec([]any{"mem", th.id}, o)
+		}
+	}
+	out.emit(map[string]any{"case": ci, "mode": "wit", "name": w.name, "threads": 3,
+		"univ": s.univJ(), "steps": steps})
 }
